@@ -5,7 +5,7 @@
    (Spec.mate_in / mated_in) on searches of the real engine. *)
 From Coq Require Import Permutation.
 From Walleye Require Import Model.Search Spec.Minimax Spec.Abs Proofs.MateText Proofs.DrawTableProofs Proofs.TableRestored Proofs.RootProofs
-  Proofs.CheckProofs Proofs.GenerateAbs Proofs.LegalMoves Proofs.PVSRoot Proofs.MateInOne Proofs.PositionGo Proofs.ClockSim Proofs.AlwaysAnswered Proofs.TightRange Proofs.OhBound Proofs.MateHeld Proofs.OhPosition.
+  Proofs.CheckProofs Proofs.GenerateAbs Proofs.LegalMoves Proofs.PVSRoot Proofs.MateInOne Proofs.PositionGo Proofs.ClockSim Proofs.AlwaysAnswered Proofs.TightRange Proofs.OhBound Proofs.MateHeld Proofs.OhPosition Proofs.PositionMate.
 From Walleye Require Import Model.Uci Gen.Handover Gen.ZobristTable.
 Open Scope Z_scope.
 
@@ -143,6 +143,24 @@ Theorem C11_go_plays_the_mate : forall zt osort,
   mated zt (ss_board st') /\ exists t infos, best_move_text (ss_board st') = Ok t /\ outs = infos ++ [s_bestmove ++ t].
 Proof. exact go_plays_the_mate. Qed.
 Print Assumptions C11_go_plays_the_mate.
+
+(* end to end: `position ...` (any command the loader and the applier accept, leaving a well-formed board: C04), then `go`.
+   The ordering value of the board and the non-negativity of the repetition record are no longer hypotheses: the
+   position command establishes them *)
+Theorem C11_position_then_go_plays_the_mate : forall zt osort,
+  (forall i l, Permutation l (osort i l)) -> (forall i l, sorted_desc (osort i l) = true) ->
+  forall cmds1 b t cmds sc gt st' outs F ws m1 r1,
+  play_out_position zt cmds1 = Ok (b, t) -> pos_ok1 b ->
+  1 <= PLYMAX - NULL_PLY_OFFSET * Z.of_nat (sc_fuel sc) ->
+  parse_go_command cmds = Ok gt -> go_step zt osort (mkSess b t Running) cmds sc = (st', outs) -> ss_phase st' = Running ->
+  (forall y, In y (generate_moves zt b AllMoves) -> mated zt y -> is_threefold_repetition t y = false) ->
+  1 + Z.of_nat F <= 100 ->
+  Forall2 (fun m x => negamax zt F m (1 - 1) 1 t = Some x) (generate_moves zt b AllMoves) ws ->
+  In m1 (generate_moves zt b AllMoves) -> mated zt m1 ->
+  first_iteration zt osort (sc_k sc) (sc_fuel sc) b t = Ok (Some r1, r1) -> quiet (sc_k sc) (r_s r1) ->
+  mated zt (ss_board st') /\ exists tx infos, best_move_text (ss_board st') = Ok tx /\ outs = infos ++ [s_bestmove ++ tx].
+Proof. exact position_then_go_plays_the_mate. Qed.
+Print Assumptions C11_position_then_go_plays_the_mate.
 
 (* the premises are satisfiable and the conclusion is what was false before F14: the witness position of that defect
    (k7/8/8/8/8/7P/5pPK/6BR b: f2f1n mates, f2f1q shares its squares), the engine's own hash table, insertion sort as
